@@ -90,6 +90,9 @@ impl<T> HashSet<T> {
     #[verifier::external_body]
     pub fn is_empty(&self) -> (r: bool) ensures r == (self@ == Set::<T>::empty()) { unimplemented!() }
 }
+// HashSet::difference collected into a new set (rewrite D19, difference form)
+#[verifier::external_body]
+pub fn set_difference<T>(a: &HashSet<T>, b: &HashSet<T>) -> (r: HashSet<T>) ensures forall|x: T| #[trigger] r@.contains(x) == (a@.contains(x) && !b@.contains(x)) { unimplemented!() }
 // iteration over a set (rewrites D21 / D23)
 #[verifier::external_body]
 pub fn iter_len<T>(s: &HashSet<T>) -> (r: usize) ensures r == s.elems().len() { unimplemented!() }
@@ -101,6 +104,8 @@ pub type Triple = (NodeId, NodeId, NodeId);          // (source, reference type,
 pub open spec fn has(m: Map<NodeId, Vec<Reference>>, t: Triple) -> bool {
     m.contains_key(t.0) && m[t.0]@.contains(Reference { reference_type: t.1, target_node: t.2 })
 }
+// lookup membership: x is recorded as a source of k
+pub open spec fn idx(rb: Map<NodeId, HashSet<NodeId>>, k: NodeId, x: NodeId) -> bool { rb.contains_key(k) && rb[k]@.contains(x) }
 impl References {
     // the references held: membership of a triple
     pub open spec fn holds(&self, t: Triple) -> bool { has(self.references_map@, t) }
@@ -249,6 +254,142 @@ DR_IN_LAST = '''                    proof {
                         }
                     }'''
 
+# lookup membership: x is recorded as a source of k
+IDX = 'pub open spec fn idx(rb: Map<NodeId, HashSet<NodeId>>, k: NodeId, x: NodeId) -> bool { rb.contains_key(k) && rb[k]@.contains(x) }'
+
+SPEC['remove_node_from_referenced_nodes'] = (None, '''        requires
+            // nothing starts at the node any more, and the reverse lookup is complete except towards the node
+            forall|t: Triple| #[trigger] has(old(self).references_map@, t) ==> t.0 != *node_to_remove,
+            forall|t: Triple| #[trigger] has(old(self).references_map@, t) ==> t.2 == *node_to_remove || idx(old(self).referenced_by_map@, t.2, t.0),
+        ensures
+            // exactly the references from the nodes to check to the node are gone
+            forall|t: Triple| #[trigger] final(self).holds(t) == (old(self).holds(t) && !(nodes_to_check@.contains(t.0) && t.2 == *node_to_remove)),
+            // the reverse lookup forgets the node as a source, nothing else
+            forall|k: NodeId, x: NodeId| x != *node_to_remove ==> #[trigger] idx(final(self).referenced_by_map@, k, x) == idx(old(self).referenced_by_map@, k, x),''')
+
+RN_OUTER = '''            invariant idx_node_to_check <= nodes_to_check.elems().len(),
+                forall|t: Triple| #[trigger] has(self.references_map@, t) == (has(old(self).references_map@, t)
+                    && !(t.2 == *node_to_remove && exists|k: int| 0 <= k < idx_node_to_check && #[trigger] nodes_to_check.elems()[k] == t.0)),
+                forall|k: NodeId, x: NodeId| x != *node_to_remove ==> #[trigger] idx(self.referenced_by_map@, k, x) == idx(old(self).referenced_by_map@, k, x),
+            decreases nodes_to_check.elems().len() - idx_node_to_check,'''
+RN_INNER = '''                        invariant idx_r <= references@.len(),
+                            forall|x: Reference| #[trigger] references@.contains(x) ==> w0.contains(x),
+                            forall|x: Reference| #[trigger] w0.contains(x) && x.target_node != *node_to_remove ==> references@.contains(x),
+                            forall|k: int| 0 <= k < idx_r ==> (#[trigger] references@[k]).target_node != *node_to_remove,
+                        decreases references@.len() - idx_r,'''
+RN_TAIL = '''            proof {
+                let n = *node_to_remove;
+                let c = *node_to_check;
+                // forward map: only the entry of the node being checked changed, and it lost exactly its references to the node
+                assert forall|t: Triple| #[trigger] has(self.references_map@, t) == (has(fm0, t) && !(t.2 == n && t.0 == c)) by {
+                    let x = Reference { reference_type: t.1, target_node: t.2 };
+                    if t.0 == c {
+                        if fm0.contains_key(c) {
+                            if self.references_map@.contains_key(c) {
+                                assert(self.references_map@[c]@.contains(x) ==> w0.contains(x));
+                                assert(w0.contains(x) && x.target_node != n ==> self.references_map@[c]@.contains(x));
+                                if self.references_map@[c]@.contains(x) {
+                                    let k = choose|k: int| 0 <= k < self.references_map@[c]@.len() && self.references_map@[c]@[k] == x;
+                                    assert(self.references_map@[c]@[k].target_node != n);
+                                }
+                            } else {
+                                // the entry was dropped because nothing was left in it
+                                if w0.contains(x) && x.target_node != n { assert(false); }
+                            }
+                        }
+                    } else {
+                        assert(self.references_map@.contains_key(t.0) == fm0.contains_key(t.0));
+                        if fm0.contains_key(t.0) { assert(self.references_map@[t.0] == fm0[t.0]); }
+                    }
+                }
+                // reverse lookup: only the set of the node being checked changed, and it lost at most the node
+                assert forall|k: NodeId, x: NodeId| x != n implies #[trigger] idx(self.referenced_by_map@, k, x) == idx(rb0, k, x) by {
+                    if k == c {
+                        if rb0.contains_key(c) && rb0[c]@.contains(x) { assert(rb0[c]@.remove(n).contains(x)); }
+                    } else {
+                        assert(self.referenced_by_map@.contains_key(k) == rb0.contains_key(k));
+                        if rb0.contains_key(k) { assert(self.referenced_by_map@[k] == rb0[k]); }
+                    }
+                }
+            }'''
+RN_END = '''        proof {
+            nodes_to_check.elems_are_the_set();
+            let e = nodes_to_check.elems();
+            assert forall|t: Triple| #[trigger] self.holds(t) == (old(self).holds(t) && !(nodes_to_check@.contains(t.0) && t.2 == *node_to_remove)) by {
+                if nodes_to_check@.contains(t.0) {
+                    assert(e.contains(t.0));
+                    let k = choose|k: int| 0 <= k < e.len() && e[k] == t.0;
+                    assert(e[k] == t.0);
+                }
+                if exists|k: int| 0 <= k < e.len() && #[trigger] e[k] == t.0 {
+                    let k = choose|k: int| 0 <= k < e.len() && #[trigger] e[k] == t.0;
+                    assert(e.contains(t.0));
+                }
+            }
+        }'''
+RN_HEAD = '''            let ghost fm0 = self.references_map@;
+            let ghost rb0 = self.referenced_by_map@;
+            let ghost w0 = if fm0.contains_key(*node_to_check) { fm0[*node_to_check]@ } else { Seq::<Reference>::empty() };'''
+
+SPEC['delete_node_references'] = ('r', '''        requires old(self).index_complete(),
+        ensures final(self).index_complete(),
+            // exactly the references from or to the node are gone
+            forall|t: Triple| #[trigger] final(self).holds(t) == (old(self).holds(t) && t.0 != *source_node && t.2 != *source_node),
+            // and the answer is true when there was one
+            (exists|t: Triple| #[trigger] old(self).holds(t) && (t.0 == *source_node || t.2 == *source_node)) ==> r,''')
+DN_CALL1_PRE = '''            proof {
+                assert forall|t: Triple| #[trigger] has(self.references_map@, t) implies has(old(self).references_map@, t) && t.0 != *source_node by { }
+            }'''
+DN_MID = '''        let ghost sB = *self;
+        proof {
+            assert forall|t: Triple| #[trigger] sB.holds(t) implies old(self).holds(t) && t.0 != *source_node by { }
+            assert forall|t: Triple| old(self).holds(t) && t.0 != *source_node && t.2 != *source_node implies #[trigger] sB.holds(t) by { }
+            assert forall|k: NodeId, x: NodeId| x != *source_node implies #[trigger] idx(sB.referenced_by_map@, k, x) == idx(old(self).referenced_by_map@, k, x) by { }
+        }'''
+DN_CALL2_PRE = '''            let ghost lm = lookup_map@;
+            proof {
+                assert forall|t: Triple| #[trigger] has(self.references_map@, t) implies t.0 != *source_node
+                    && (t.2 == *source_node || idx(self.referenced_by_map@, t.2, t.0)) by {
+                    assert(sB.holds(t));
+                    assert(old(self).holds(t));
+                    if t.2 != *source_node { assert(idx(sB.referenced_by_map@, t.2, t.0)); }
+                }
+            }'''
+DN_CALL2_POST = '''            proof {
+                assert forall|t: Triple| #[trigger] self.holds(t) implies t.2 != *source_node by {
+                    if t.2 == *source_node {
+                        assert(sB.holds(t));
+                        assert(old(self).holds(t));
+                        assert(idx(old(self).referenced_by_map@, *source_node, t.0));
+                        assert(idx(sB.referenced_by_map@, *source_node, t.0));
+                        assert(lm.contains(t.0));
+                    }
+                }
+            }'''
+DN_END = '''        proof {
+            let n = *source_node;
+            assert forall|t: Triple| #[trigger] self.holds(t) implies sB.holds(t) && t.2 != n by {
+                if t.2 == n && !sB.referenced_by_map@.contains_key(n) {
+                    assert(sB.holds(t));
+                    assert(old(self).holds(t));
+                    assert(idx(old(self).referenced_by_map@, n, t.0));
+                    assert(idx(sB.referenced_by_map@, n, t.0));
+                }
+            }
+            assert forall|t: Triple| sB.holds(t) && t.2 != n implies #[trigger] self.holds(t) by { }
+            assert forall|t: Triple| #[trigger] has(self.references_map@, t) implies
+                self.referenced_by_map@.contains_key(t.2) && self.referenced_by_map@[t.2]@.contains(t.0) by {
+                assert(self.holds(t));
+                assert(sB.holds(t));
+                assert(old(self).holds(t));
+                assert(idx(old(self).referenced_by_map@, t.2, t.0));
+                assert(idx(sB.referenced_by_map@, t.2, t.0));
+                assert(idx(self.referenced_by_map@, t.2, t.0));
+            }
+        }'''
+DN_LOOP = '''                    invariant idx_0 <= references@.len(),
+                    decreases references@.len() - idx_0,'''
+
 CANARY = '''
 proof fn canary_references(r: References, t: Triple)
     requires r.index_complete(), r.holds(t),
@@ -273,21 +414,57 @@ def build(manifest):
     f['insert_reference'] = splice_body_start(f['insert_reference'], '        let ghost rt0 = *reference_type;')
     # delete_reference: closures over iterators as loops (D19 set form, D18, D21 difference form)
     d = prep(rf.impl_fn(r'^impl References \{', 'delete_reference'))
-    d = difference_for_each_to_loop(retain_to_loop(map_collect_expr_to_loop(d, rewrites), rewrites), rewrites)
+    d = difference_for_each_to_loop(retain_to_loop(map_collect_expr_to_loop(difference_collect_to_env(d, rewrites), rewrites), rewrites), rewrites)
     d = splice_contract(d, SPEC['delete_reference'][1], 'r')
     d = '    #[verifier::loop_isolation(false)]\n' + d
     d = splice_body_start(d, '        let ghost rt0 = reference_type;\n        let ghost r0 = Reference { reference_type: reference_type, target_node: *target_node };')
-    if len([r for r in rewrites if r.startswith(('D18', 'D19', 'D21'))]) >= 4:
-        for k, inv in enumerate(DR_LOOPS):
+    nloops = len(re.findall(r'^\s*while\b', d, re.M))
+    for k, inv in enumerate(DR_LOOPS[:3]):
+        if k < nloops:
             d = splice_loop(d, k, inv.replace('V0', DR_V0))
+    if re.search(r'^\s*if keep_r \{', d, re.M):
         d = splice_at(d, r'^\s*if keep_r \{', '                proof { lemma_remove_contains(references@, idx_r as int); }', before=True)
+    if re.search(r'^\s*let mut idx_node: usize = 0;', d, re.M):
+        # the reverse lookup is corrected by a loop over the nodes that are no longer referenced
+        d = splice_loop(d, 3, DR_LOOPS[3])
         d = splice_at(d, r'^\s*let mut idx_node: usize = 0;', DR_BEFORE_LAST.replace('V0', DR_V0), before=True)
         d = splice_at(d, r'^\s*if !other_nodes_after\.contains\(node\) \{', DR_IN_LAST, before=False)
         d = splice_at(d, r'^\s*let node = iter_nth\(&other_nodes_before, idx_node\);', DR_LAST_HEAD, before=False)
         d = splice_at(d, r'^\s*idx_node \+= 1;', DR_LAST_TAIL, before=True)
+    if True:
         d = splice_at(d, r'^\s*if remove_entry \{', DR_MID, before=True)
         d = splice_body_end(d, DR_END)
     f['delete_reference'] = d
+    # remove_node_from_referenced_nodes: D21 (set form) and D18
+    g = prep(rf.impl_fn(r'^impl References \{', 'remove_node_from_referenced_nodes'))
+    g = set_for_each_to_loop(retain_to_loop(g, rewrites), rewrites)
+    g = splice_contract(g, SPEC['remove_node_from_referenced_nodes'][1], None)
+    g = '    #[verifier::loop_isolation(false)]\n' + g
+    g = splice_loop(g, 0, RN_OUTER)
+    g = splice_loop(g, 1, RN_INNER)
+    g = splice_at(g, r'^\s*let node_to_check = iter_nth\(&nodes_to_check, idx_node_to_check\);', RN_HEAD, before=False)
+    g = splice_at(g, r'^\s*if keep_r \{', '                        proof { lemma_remove_contains(references@, idx_r as int); }', before=True)
+    g = splice_at(g, r'^\s*idx_node_to_check \+= 1;', RN_TAIL, before=True)
+    g = splice_body_end(g, RN_END)
+    f['remove_node_from_referenced_nodes'] = g
+    # delete_node_references: D19 (set form)
+    h = map_collect_expr_to_loop(prep(rf.impl_fn(r'^impl References \{', 'delete_node_references')), rewrites)
+    h = splice_contract(h, SPEC['delete_node_references'][1], 'r')
+    h = '    #[verifier::loop_isolation(false)]\n' + h
+    if re.search(r'^\s*while\b', h, re.M):
+        h = splice_loop(h, 0, DN_LOOP)
+    # proof hints go where the corresponding statements are; a statement that is not there gets no hint (and the contract decides)
+    ncalls = len(re.findall(r'^\s*self\.remove_node_from_referenced_nodes\(', h, re.M))
+    has_mid = re.search(r'^\s*let deleted_lookups = ', h, re.M) is not None
+    if ncalls >= 1:
+        h = splice_at(h, r'^\s*self\.remove_node_from_referenced_nodes\(', DN_CALL1_PRE, before=True, occurrence=0)
+    if has_mid:
+        h = splice_at(h, r'^\s*let deleted_lookups = ', DN_MID, before=True)
+        if ncalls >= 2:
+            h = splice_at(h, r'^\s*self\.remove_node_from_referenced_nodes\(', DN_CALL2_PRE, before=True, occurrence=1)
+            h = splice_at(h, r'^\s*self\.remove_node_from_referenced_nodes\(', DN_CALL2_POST, before=False, occurrence=1)
+        h = splice_body_end(h, DN_END)
+    f['delete_node_references'] = h
     for n in END:
         f[n] = splice_body_end(f[n], END[n])
     types = '\n'.join([rf.struct('Reference'), rf.struct('References')])
@@ -298,7 +475,7 @@ def build(manifest):
     a.add('impl Reference {')
     a.add(f['new'], 'Reference::new', 'fn')
     a.add('}\nimpl References {')
-    for n in ['has_reference', 'insert_reference', 'delete_reference']:
+    for n in ['has_reference', 'insert_reference', 'delete_reference', 'remove_node_from_referenced_nodes', 'delete_node_references']:
         a.add(f[n], n, 'fn')
     a.add('}')
     add_proof_fns(a, LEMMAS, 'lemma')
@@ -306,4 +483,14 @@ def build(manifest):
     a.add('}\nfn main() {}\n')
     return dict(asm=a, pid=PID, short=SHORT, clauses={k: v[1] for k, v in SPEC.items()}, twins={}, witness={},
                 verus_args=['--triggers-mode', 'silent'],
-                assumptions=[])
+                assumptions=['C28: std HashMap::{get, get_mut, insert, remove} and HashSet::{new, insert, remove, contains, is_empty, difference} have map / set '
+                             'semantics (environment types; get_mut hands out a mutable borrow of the stored value); a HashSet is iterated in some '
+                             'order, each element once; <[T]>::contains finds an equal element; Vec::remove / push / retain as vstd specifies them',
+                             'C28: rewrites D13 (T instantiated at NodeId, `x.into()` the identity), D18 (retain), D19 (map(..).collect() into a HashSet), '
+                             'D21 (for_each over a set / over a set difference) — each closure over an iterator becomes the loop it stands for',
+                             'C28: NodeId is seen as (namespace, identifier) with field-wise equality; #[derive(PartialEq)] on Reference is field-wise',
+                             'C28: the reverse lookup is proved COMPLETE (every source of every target is recorded), which is what '
+                             'delete_node_references needs; that it holds no stale entries (find_inverse_references reporting only existing references) '
+                             'follows from find_inverse_references re-checking the forward map, which is not under contract (iterator adapters), as are '
+                             'find_references / filter_references_by_type / find_references_by_direction (reference type filters over subtypes)',
+                             'C28: insert_reference is called with source != target (it panics otherwise; the node management service checks it: C34)'])
